@@ -2,4 +2,4 @@
 Assembled from the scheduler parts: mq (SP, RR, WRR, Monitor), drr (DRR), wfq (WFQ, VirtualClock)."""
 from vlib.composite import Composite
 
-PROP = Composite("C12", ["mq", "drr", "wfq"], n_quick=360, n_thorough=9000)
+PROP = Composite("C12", ["mq", "drr", "wfq"], extra_props_files=["Props/C12_Examples_MQ.v", "Props/C12_Examples_DRR.v", "Props/C12_Examples_WFQ.v"], n_quick=360, n_thorough=9000)
